@@ -1,16 +1,54 @@
 from props import *  # noqa: F401,F403
 
+# ------------------------------------------------------------------------------------------------
 rc_bin("c08_rc", ["harness/c08_series_keys.cc"], lib=True)
 PROPS["C08"] = dict(
-    level_text="TBD",
-    technique="TBD",
-    rule="TBD",
-    assumptions=[SC_NOTE],
+    level_text="Metamorphic and reference-model property tests (rapidcheck, ASan/UBSan) at three levels: the attribute-set "
+               "value (FilteredOrderedAttributeMap built through every constructor / AttributesProcessor::process from "
+               "generated key-value lists over all 16 AttributeValue alternatives, re-spelled by stable permutations, "
+               "shadowed duplicates, C-string/view spellings and keys handed over as non NUL-terminated views; compared "
+               "with a last-wins std::map model filtered by the allow-list, with mutated near-miss sets, and through "
+               "AttributesHashMap), the instrument (MeterProvider, one instrument, at most one view with an attribute "
+               "filter, 1..2 delta/cumulative readers, Adds in many spellings over several collection cycles: the "
+               "reported series are exactly the distinct model maps with exactly their sums) and the storage "
+               "(SyncMetricStorage with explicit cardinality limits 2..10 and a MeterProvider with the default 2000: "
+               "Records over attribute-set pools larger than the limit, 1..4 collection cycles, 1..2 collectors). "
+               "Every explored case agreed with the model. Exploration is the right level: the domain (all attribute "
+               "lists x allow-lists x limits x collection histories) is unbounded, the oracle is cheap and exact, and "
+               "the defects of this kind sit at key-view boundaries, type-only differences, limit-1/limit/limit+1 and in "
+               "the merge of several intervals, which generated search reaches directly.",
+    technique="metamorphic relation (permutation / duplicates / spelling of one attribute set) + reference model map "
+              "(last wins, exact-key allow-list) + conservation through the overflow series per reader semantics "
+              "(delta per interval, cumulative running total); rapidcheck",
+    rule="Cases are choice streams decoded into (list A, re-spelling B, mutation C, key layouts, allow-list) or into "
+         "(instrument/storage configuration, attribute-set pool, Record/Collect history).",
+    assumptions=[
+        "{k=0.0} versus {k=-0.0} is an either-way pair at the value level (the statement does not say whether they are "
+        "equal maps); the series levels do not generate -0.0; NaN attribute values are not generated",
+        "the bool stored with an allow-list key is always true (the meaning of false is not documented)",
+        "this SDK version accepts an explicit cardinality limit only as SyncMetricStorage's constructor argument, so "
+        "explicit limits are exercised on SyncMetricStorage directly and the provider-level run uses the default 2000",
+        "limit semantics: at most `limit` series per report including the overflow series; a report that covers at most "
+        "limit-1 distinct sets must be exact and must not contain an overflow series; exactly `limit` distinct sets may "
+        "or may not use the overflow series",
+        "a set with its own series may still have part of its measurements in the overflow series once several "
+        "intervals were merged (asserted as <=); inside one interval a set is never split",
+        "measurement values are non-negative whole numbers below 2^51 in the limit targets (floating sums are then "
+        "exact in any order); attribute sets equal to {otel.metrics.overflow=true} are not recorded by the caller",
+        "a delta reader may omit, or send an all-zero point for, a series without measurements in the interval; a "
+        "cumulative reader may omit an unchanged series at the instrument level, but every delivered report of the "
+        "limit targets must total everything recorded (statement, last sentence)",
+        "one instrument per meter and at most one view per instrument (the C06 findings F7/F8 are not in play); "
+        "timestamps are not compared",
+        SC_NOTE,
+    ],
     runs=[
-        run("value", "c08_rc", "attr_value", "rc", dict(procs=4, cases=6000), dict(procs=8, cases=60000)),
-        run("series", "c08_rc", "instrument_series", "rc", dict(procs=4, cases=4000), dict(procs=8, cases=40000)),
-        run("limits", "c08_rc", "storage_limits", "rc", dict(procs=4, cases=4000), dict(procs=8, cases=40000)),
-        run("default-limit", "c08_rc", "provider_default_limit", "rc", dict(procs=3, cases=100), dict(procs=6, cases=600), max_size=40),
+        run("value", "c08_rc", "attr_value", "rc", dict(procs=4, cases=12000), dict(procs=5, cases=200000)),
+        run("series", "c08_rc", "instrument_series", "rc", dict(procs=4, cases=8000), dict(procs=4, cases=120000)),
+        run("limits", "c08_rc", "storage_limits", "rc", dict(procs=4, cases=8000), dict(procs=4, cases=150000)),
+        run("default-limit", "c08_rc", "provider_default_limit", "rc", dict(procs=3, cases=200, max_size=30),
+            dict(procs=3, cases=2500, max_size=30)),
+        # fixed regression cases of F9/F10/F11: only ever replayed (replays/C08/F*-fixed-case.json)
         run("f9-witness", "c08_rc", "f9_witness", "rc", None, None),
         run("f10-witness", "c08_rc", "f10_witness", "rc", None, None),
         run("f11-witness", "c08_rc", "f11_witness", "rc", None, None),
